@@ -325,14 +325,29 @@ Definition rebuilt (n n' : pool_id) (new : objs_t) (old : pools_t) (c : cfg) (p 
   forall d u pd us, clookup d (cpools c) = Some (pd, us) -> In u us -> no_reuse old (d, u) pd ->
   exists pid, plookup (d, u) p = Some (hashf pd, pid) /\ n <= pid < n' /\ In (pid, ((d, u), pd)) new.
 
-Lemma reload_built : forall ob s c bo n s' r n' new,
-  wf_cfg c -> store_ok ob (pools s) -> all_built c bo = true -> cfg_eqb (config s) c = false ->
-  reload hashf s (Valid c bo) n = (s', r, n', new) ->
-  r = ROk true /\ config s' = c /\ in_effect hashf (new ++ ob) c (pools s') /\ rebuilt n n' new (pools s) c (pools s').
+Lemma no_panic_status : forall old c bo n0, no_panic c bo = true -> a_st (from_config hashf old c bo n0) <> FcPanic.
 Proof.
-  intros ob s c bo n s' r n' new W SO AB NE R. cbn [reload] in R. rewrite NE in R.
-  pose proof (all_built_ok (pools s) c bo n AB) as Hst. rewrite Hst in R. inversion R; subst. clear R.
-  split; auto. split; auto. cbn [pools].
+  intros old c bo n0 H. unfold from_config, no_panic in *. rewrite forallb_forall in H.
+  assert (G : forall l a, (forall x, In x l -> match bo (fst (fst x)) (snd x) with BuildPanics => false | _ => true end = true) ->
+              a_st a <> FcPanic -> a_st (fold_left (fc_step hashf old bo) l a) <> FcPanic).
+  { induction l as [|x l IH]; intros a Hl Ha; cbn; auto. apply IH; [intros; apply Hl; right; assumption|].
+    specialize (Hl x (or_introl eq_refl)). destruct x as [[d pd] u]. cbn [fst snd] in Hl. unfold fc_step.
+    destruct (a_st a) eqn:E; try congruence.
+    destruct (plookup (d, u) old) as [[h0 p0]|]; [destruct (h0 =? hashf pd)|]; cbn; try congruence;
+    destruct (bo d u); cbn; congruence. }
+  apply G; auto. cbn. congruence.
+Qed.
+
+(** [reload] answered Ok(true): CONFIG is the new file and POOLS is exactly what it describes *)
+Lemma reload_built : forall ob s c bo n s' n' new,
+  wf_cfg c -> store_ok ob (pools s) ->
+  reload hashf s (Valid c bo) n = (s', ROk true, n', new) ->
+  cfg_eqb (config s) c = false /\ config s' = c /\ in_effect hashf (new ++ ob) c (pools s') /\ rebuilt n n' new (pools s) c (pools s').
+Proof.
+  intros ob s c bo n s' n' new W SO R. cbn [reload] in R.
+  destruct (cfg_eqb (config s) c) eqn:NE; [inversion R|]. split; auto.
+  destruct (a_st (from_config hashf (pools s) c bo n)) eqn:Hst; inversion R; subst. clear R.
+  split; auto. cbn [pools].
   pose proof (from_config_spec (pools s) c bo n W Hst) as S. cbv zeta in S. split.
   - intros d u. specialize (S d u). destruct (clookup d (cpools c)) as [[pd us]|]; auto.
     destruct (mem u us); auto. destruct S as [pid [A [B|[_ [B1 B2]]]]].
@@ -344,17 +359,50 @@ Proof.
     + exists pid. auto.
 Qed.
 
-(** F12: the build fails after CONFIG was replaced — and the same file is "unchanged" from then on *)
+(** the results a reload with a valid, changed file can have *)
+Lemma reload_result : forall s c bo n s' r n' new,
+  cfg_eqb (config s) c = false -> reload hashf s (Valid c bo) n = (s', r, n', new) ->
+  match a_st (from_config hashf (pools s) c bo n) with
+  | FcOk => r = ROk true
+  | FcErr => r = RErr /\ s' = s /\ n' = n /\ new = []
+  | FcPanic => r = RPanic /\ s' = {| config := c; pools := pools s |} /\ n' = n /\ new = []
+  end.
+Proof.
+  intros s c bo n s' r n' new NE R. cbn [reload] in R. rewrite NE in R.
+  destruct (a_st (from_config hashf (pools s) c bo n)); inversion R; subst; auto.
+Qed.
+
+(** repaired F12: a build that FAILS leaves CONFIG, POOLS, the id supply and the objects as they were *)
+Lemma failed_build_noop : forall s c bo n,
+  cfg_eqb (config s) c = false -> a_st (from_config hashf (pools s) c bo n) = FcErr ->
+  reload hashf s (Valid c bo) n = (s, RErr, n, []).
+Proof. intros s c bo n NE Hst. cbn [reload]. rewrite NE, Hst. reflexivity. Qed.
+
+(** ... so the next reload of the same file is not "unchanged": with the server back it builds *)
+Lemma retry_rebuilds : forall ob s c bo bo' n,
+  wf_cfg c -> store_ok ob (pools s) -> cfg_eqb (config s) c = false ->
+  a_st (from_config hashf (pools s) c bo n) = FcErr -> all_built c bo' = true ->
+  exists s1 r1 n1 new1 s2 n2 new2,
+    reload hashf s (Valid c bo) n = (s1, r1, n1, new1) /\ r1 = RErr /\
+    reload hashf s1 (Valid c bo') n1 = (s2, ROk true, n2, new2) /\
+    config s2 = c /\ in_effect hashf (new2 ++ ob) c (pools s2).
+Proof.
+  intros ob s c bo bo' n W SO NE Hst AB.
+  destruct (reload hashf s (Valid c bo') n) as [[[s2 r2] n2] new2] eqn:R2.
+  pose proof (reload_result _ _ _ _ _ _ _ _ NE R2) as X. rewrite (all_built_ok (pools s) c bo' n AB) in X. subst r2.
+  destruct (reload_built _ _ _ _ _ _ _ _ W SO R2) as [_ [A [B _]]].
+  exists s, RErr, n, [], s2, n2, new2. rewrite (failed_build_noop _ _ _ _ NE Hst). auto.
+Qed.
+
+(** the remaining class: a PANIC in from_config after CONFIG was replaced — and the same file is "unchanged" from then on *)
 Lemma partial_state : forall s c bo n,
-  wf_cfg c -> cfg_eqb (config s) c = false -> a_st (from_config hashf (pools s) c bo n) <> FcOk ->
+  wf_cfg c -> cfg_eqb (config s) c = false -> a_st (from_config hashf (pools s) c bo n) = FcPanic ->
   let s1 := {| config := c; pools := pools s |} in
-  (exists r, r <> ROk true /\ r <> ROk false /\ reload hashf s (Valid c bo) n = (s1, r, n, [])) /\
+  reload hashf s (Valid c bo) n = (s1, RPanic, n, []) /\
   forall bo' n', reload hashf s1 (Valid c bo') n' = (s1, ROk false, n', []).
 Proof.
   intros s c bo n W NE Hst s1. split.
-  - cbn [reload]. rewrite NE. destruct (a_st (from_config hashf (pools s) c bo n)); try congruence.
-    + exists RErr. repeat split; congruence.
-    + exists RPanic. repeat split; congruence.
+  - cbn [reload]. rewrite NE, Hst. reflexivity.
   - intros bo' n'. cbn [reload]. subst s1. cbn [config pools]. rewrite (cfg_eqb_refl c W). reflexivity.
 Qed.
 
@@ -700,7 +748,7 @@ Qed.
 (** CONFIG and POOLS agree after every run in which no build failed. *)
 Definition agree (w : world) : Prop := in_effect hashf (objs w) (config (st w)) (pools (st w)).
 
-Lemma agree_step : forall w o w' ob, winv w -> agree w -> op_wf o -> op_known_f12 o = false ->
+Lemma agree_step : forall w o w' ob, winv w -> agree w -> op_wf o -> op_known_panic o = false ->
   step hashf w o = (w', ob) -> agree w'.
 Proof.
   intros w o w' ob I A W K S. destruct (actor o) eqn:Ac.
@@ -716,10 +764,14 @@ Proof.
     + cbn in R. inversion R; subst. exact A.
     + cbn in W, K. apply negb_false_iff in K. destruct (cfg_eqb (config (st w)) c) eqn:E.
       * cbn [reload] in R. rewrite E in R. inversion R; subst. cbn. eapply in_effect_cfg_eq; eauto.
-      * destruct I as [SO _]. destruct (reload_built _ _ _ _ _ _ _ _ _ W SO K E R) as [_ [Ec [X _]]]. rewrite Ec. exact X.
+      * destruct I as [SO _]. pose proof (reload_result _ _ _ _ _ _ _ _ E R) as X.
+        pose proof (no_panic_status (pools (st w)) c bo (next_pool w) K) as NP.
+        destruct (a_st (from_config hashf (pools (st w)) c bo (next_pool w))); try congruence.
+        -- subst r. destruct (reload_built _ _ _ _ _ _ _ _ W SO R) as [_ [Ec [Y _]]]. rewrite Ec. exact Y.
+        -- destruct X as [_ [-> [_ ->]]]. exact A.
 Qed.
 
-Lemma agree_run : forall l w w' obs, winv w -> agree w -> Forall op_wf l -> existsb op_known_f12 l = false ->
+Lemma agree_run : forall l w w' obs, winv w -> agree w -> Forall op_wf l -> existsb op_known_panic l = false ->
   run hashf w l = (w', obs) -> agree w'.
 Proof.
   induction l as [|o t IH]; intros w w' obs I A W K R; cbn in R.
@@ -787,10 +839,10 @@ Proof.
 Qed.
 
 (** After a reload whose builds all succeed, per (pool, user): what [get_pool] resolves to. *)
-Lemma changed_in_effect : forall w c bo w1 ob,
-  winv w -> wf_cfg c -> all_built c bo = true -> cfg_eqb (config (st w)) c = false ->
-  step hashf w (OReload (Valid c bo)) = (w1, ob) ->
-  ob = ObReload (ROk true) /\ config (st w1) = c /\
+Lemma changed_in_effect : forall w c bo w1,
+  winv w -> wf_cfg c ->
+  step hashf w (OReload (Valid c bo)) = (w1, ObReload (ROk true)) ->
+  config (st w1) = c /\
   forall d u,
     match clookup d (cpools c) with
     | Some (pd, us) =>
@@ -801,10 +853,10 @@ Lemma changed_in_effect : forall w c bo w1 ob,
     | None => begin_txn (st w1) d u = None
     end.
 Proof.
-  intros w c bo w1 ob I W AB NE S. pose proof (winv_step _ _ _ _ I S) as I1. unfold step in S. cbn [step0] in S.
+  intros w c bo w1 I W S. pose proof (winv_step _ _ _ _ I S) as I1. unfold step in S. cbn [step0] in S.
   destruct (reload hashf (st w) (Valid c bo) (next_pool w)) as [[[s' r] n'] new] eqn:R. inversion S; subst. clear S.
-  destruct I as [SO I']. destruct (reload_built _ _ _ _ _ _ _ _ _ W SO AB NE R) as [Er [Ec [IE RB]]]. subst r.
-  split; auto. rewrite gc_st. cbn [st]. split; auto. intros d u. specialize (IE d u). unfold begin_txn.
+  destruct I as [SO I']. destruct (reload_built _ _ _ _ _ _ _ _ W SO R) as [_ [Ec [IE RB]]].
+  rewrite gc_st. cbn [st]. split; auto. intros d u. specialize (IE d u). unfold begin_txn.
   destruct (clookup d (cpools c)) as [[pd us]|] eqn:L.
   - destruct (mem u us) eqn:M.
     + destruct IE as [pid [pd' [A [B C]]]]. exists pid, pd'. rewrite A. rewrite gc_objs. cbn [objs]. repeat split; auto;
@@ -816,26 +868,26 @@ Proof.
   - rewrite IE. reflexivity.
 Qed.
 
-Lemma removed_pool_error : forall w c bo w1 ob ops w2 obs cl x,
-  winv w -> wf_cfg c -> all_built c bo = true -> cfg_eqb (config (st w)) c = false ->
-  step hashf w (OReload (Valid c bo)) = (w1, ob) ->
+Lemma removed_pool_error : forall w c bo w1 ops w2 obs cl x,
+  winv w -> wf_cfg c ->
+  step hashf w (OReload (Valid c bo)) = (w1, ObReload (ROk true)) ->
   Forall (fun o => actor o <> None) ops -> run hashf w1 ops = (w2, obs) ->
   cl_lookup cl (clients w2) = Some x -> cheld x = None ->
   (match clookup (cdb x) (cpools c) with Some (_, us) => ~ In (cuser x) us | None => True end) ->
   exists w3, step hashf w2 (OBegin cl) = (w3, ObNoPool) /\ cl_lookup cl (clients w3) = None /\
              st w3 = st w2 /\ (forall y, In y (servers w3) -> In y (servers w2)).
 Proof.
-  intros w c bo w1 ob ops w2 obs cl x I W AB NE S F R L Hh Rm.
-  destruct (changed_in_effect _ _ _ _ _ I W AB NE S) as [_ [_ CE]]. specialize (CE (cdb x) (cuser x)).
+  intros w c bo w1 ops w2 obs cl x I W S F R L Hh Rm.
+  destruct (changed_in_effect _ _ _ _ I W S) as [_ CE]. specialize (CE (cdb x) (cuser x)).
   pose proof (later_begin _ _ _ _ _ _ F R L Hh) as LB.
   destruct (clookup (cdb x) (cpools c)) as [[pd us]|].
   - apply mem_false in Rm. rewrite Rm in CE. rewrite CE in LB. exact LB.
   - rewrite CE in LB. exact LB.
 Qed.
 
-Lemma changed_in_effect_txn : forall w c bo w1 ob ops w2 obs cl x pd us,
-  winv w -> wf_cfg c -> all_built c bo = true -> cfg_eqb (config (st w)) c = false ->
-  step hashf w (OReload (Valid c bo)) = (w1, ob) ->
+Lemma changed_in_effect_txn : forall w c bo w1 ops w2 obs cl x pd us,
+  winv w -> wf_cfg c ->
+  step hashf w (OReload (Valid c bo)) = (w1, ObReload (ROk true)) ->
   Forall (fun o => actor o <> None) ops -> run hashf w1 ops = (w2, obs) ->
   cl_lookup cl (clients w2) = Some x -> cheld x = None ->
   clookup (cdb x) (cpools c) = Some (pd, us) -> In (cuser x) us ->
@@ -844,8 +896,8 @@ Lemma changed_in_effect_txn : forall w c bo w1 ob ops w2 obs cl x pd us,
     In (p, ((cdb x, cuser x), pd')) (objs w2) /\ hashf pd' = hashf pd /\
     (no_reuse (pools (st w)) (cdb x, cuser x) pd -> next_pool w <= p /\ pd' = pd).
 Proof.
-  intros w c bo w1 ob ops w2 obs cl x pd us I W AB NE S F R L Hh Lc Hu.
-  destruct (changed_in_effect _ _ _ _ _ I W AB NE S) as [_ [_ CE]]. specialize (CE (cdb x) (cuser x)).
+  intros w c bo w1 ops w2 obs cl x pd us I W S F R L Hh Lc Hu.
+  destruct (changed_in_effect _ _ _ _ I W S) as [_ CE]. specialize (CE (cdb x) (cuser x)).
   pose proof (later_begin _ _ _ _ _ _ F R L Hh) as LB. rewrite Lc in CE. apply mem_In in Hu. rewrite Hu in CE.
   destruct CE as [p [pd' [A [B [C D]]]]]. rewrite A in LB. destruct LB as [w3 [s [f [X Y]]]].
   destruct (client_run_store _ _ _ _ R F) as [_ [Eo _]].
@@ -854,7 +906,7 @@ Qed.
 
 End WithHash.
 
-(** ------------------------------------------------------------------ F12 witness (hash = identity) *)
+(** ------------------------------------------------------------------ witnesses (hash = identity) *)
 
 Definition f12_old : cfg := {| cgen := 1; cpools := [(0, (10, [0]))] |}.
 Definition f12_new : cfg := {| cgen := 1; cpools := [(0, (11, [0]))] |}.
@@ -863,16 +915,32 @@ Definition f12_new : cfg := {| cgen := 1; cpools := [(0, (11, [0]))] |}.
 Definition f12_ops : list op :=
   [OReload (Valid f12_old (bo_of [] [])); OConnect 0 0 0;
    OReload (Valid f12_new (bo_of [(0, 0)] [])); OReload (Valid f12_new (bo_of [] [])); OBegin 0].
+(** the same with a build that panics *)
+Definition panic_ops : list op :=
+  [OReload (Valid f12_old (bo_of [] [])); OConnect 0 0 0;
+   OReload (Valid f12_new (bo_of [] [(0, 0)])); OReload (Valid f12_new (bo_of [] [])); OBegin 0].
 
-Lemma partial_refuted :
-  Forall op_wf f12_ops /\
+(** F12 as repaired: the failed reload changes nothing, the retry rebuilds, the client runs on the new object *)
+Lemma f12_regression :
   exists w, run idh empty_world f12_ops =
-              (w, [ObReload (ROk true); ObConnected 0; ObReload RErr; ObReload (ROk false); ObBegun 0 0 false]) /\
+              (w, [ObReload (ROk true); ObConnected 0; ObReload RErr; ObReload (ROk true); ObBegun 1 1 true]) /\
+            config (st w) = f12_new /\ pools (st w) = [((0, 0), (11, 1))] /\ agree idh w /\
+            fst (run idh empty_world (firstn 3 f12_ops)) = fst (run idh empty_world (firstn 2 f12_ops)).
+Proof.
+  eexists. split; [vm_compute; reflexivity|]. cbn [st config pools]. repeat split; auto.
+  intros d u. destruct d as [|[|d]]; destruct u as [|u]; vm_compute; eauto.
+  exists 1, 11. auto.
+Qed.
+
+Lemma panic_partial_refuted :
+  Forall op_wf panic_ops /\
+  exists w, run idh empty_world panic_ops =
+              (w, [ObReload (ROk true); ObConnected 0; ObReload RPanic; ObReload (ROk false); ObBegun 0 0 false]) /\
             config (st w) = f12_new /\ pools (st w) = [((0, 0), (10, 0))] /\ objs w = [(0, ((0, 0), 10))] /\
             ~ agree idh w.
 Proof.
   split.
-  - unfold f12_ops. repeat constructor; cbn; intros []; contradiction.
+  - unfold panic_ops. repeat constructor; cbn; intros []; contradiction.
   - eexists. split; [vm_compute; reflexivity|]. cbn. repeat split; auto.
     intros A. specialize (A 0 0). vm_compute in A. destruct A as [pid [pd' [E _]]]. discriminate.
 Qed.
@@ -886,7 +954,7 @@ Lemma winv_every_run : forall hashf ops w obs, run hashf empty_world ops = (w, o
 Proof. intros hashf ops w obs R. eapply winv_run; eauto. apply winv_empty. Qed.
 
 Lemma config_pools_agree : forall hashf ops w obs,
-  Forall op_wf ops -> existsb op_known_f12 ops = false ->
+  Forall op_wf ops -> existsb op_known_panic ops = false ->
   run hashf empty_world ops = (w, obs) -> agree hashf w.
 Proof.
   intros hashf ops w obs W K R. eapply agree_run; eauto. apply winv_empty. apply agree_empty.
